@@ -17,6 +17,12 @@ Melt(t, kidx) ==
   [hdr |-> Pick(t.hdr, kidx) \o <<"variable", "value">>,
    rows |-> Flat([i \in 1..Len(t.rows) |-> [v \in 1..Len(vidx) |-> Pick(t.rows[i], kidx) \o <<t.hdr[vidx[v]], t.rows[i][vidx[v]]>>]])]
 
+\* melt(variables=vs): the variable fields in the CALLER's order (vs = 1-based positions); key = the remaining fields
+MeltVars(t, vs) ==
+  LET kidx == Others(Len(t.hdr), vs) IN
+  [hdr |-> Pick(t.hdr, kidx) \o <<"variable", "value">>,
+   rows |-> Flat([i \in 1..Len(t.rows) |-> [v \in 1..Len(vs) |-> Pick(t.rows[i], kidx) \o <<t.hdr[vs[v]], t.rows[i][vs[v]]>>]])]
+
 \* field names used as variables are ordered as Python strings; here: position in Alphabet
 Alphabet == <<"a", "b", "c", "d", "value", "variable">>
 NameRank(f) == CHOOSE r \in 1..Len(Alphabet) : Alphabet[r] = f
